@@ -330,10 +330,10 @@ pub fn gen(rng: &mut Rng, n: usize, thorough: bool, stats: &mut Stats) -> Vec<St
 				8 => format!(
 					"lfo {} {} {} {} {}",
 					rng.below(5),
-					o64(rng.pick(&[0.0, 0.5, 2.0, 20.0, 1000.0])),
+					o64(rng.pick(&[0.0, 0.5, 2.0, 20.0, 1000.0, -3.0])),
 					o64(rng.pick(&[1.0, 0.0, -1.0, 10.0])),
 					o64(rng.pick(&[0.0, 1.0, -0.5])),
-					o64(rng.pick(&[0.0, 90.0, 0.25, 720.0]))
+					o64(rng.pick(&[0.0, 90.0, 0.25, 720.0, -200.0]))
 				),
 				9 => format!("tweener {}", o64(rng.pick(&[0.0, 1.0, -1.0, 0.5]))),
 				10 => format!("tweener.set {} {} {}", rng.below(3), o64(rng.uniform(-2.0, 2.0)), gen_tween(rng, nclocks)),
@@ -342,14 +342,15 @@ pub fn gen(rng: &mut Rng, n: usize, thorough: bool, stats: &mut Stats) -> Vec<St
 					o32(rng.uniform(-5.0, 5.0) as f32),
 					o32(rng.uniform(-5.0, 5.0) as f32),
 					o32(rng.uniform(-5.0, 5.0) as f32),
-					o32(rng.pick(&[0.0f32, 0.5, 0.70710677])),
-					o32(rng.pick(&[0.0f32, 0.5, 0.70710677])),
-					o32(rng.pick(&[0.0f32, 0.5])),
-					o32(rng.pick(&[1.0f32, 0.5, 0.70710677]))
+					o32(rng.pick(&[0.0f32, 0.5, 0.70710677, 0.0])),
+					o32(rng.pick(&[0.0f32, 0.5, 0.70710677, 0.0])),
+					o32(rng.pick(&[0.0f32, 0.5, 0.0])),
+					o32(rng.pick(&[1.0f32, 0.5, 0.70710677, 0.0, 3.0, 1e-30]))
 				),
 				12 => {
+					// any finite distances, including max <= min (a step at min since the spatial fix)
 					let min = rng.pick(&[1.0f32, 0.0, 0.5, 10.0]);
-					let max = min + rng.pick(&[1.0f32, 100.0, 0.001, 50.0]);
+					let max = min + rng.pick(&[1.0f32, 100.0, 0.001, 50.0, 0.0, -0.5, -20.0]);
 					let pos = if rng.chance(1, 4) { (0.0, 0.0, 0.0) } else { (rng.uniform(-20.0, 20.0), rng.uniform(-20.0, 20.0), rng.uniform(-20.0, 20.0)) };
 					format!(
 						"spatial {} {} {} {} {} {} {} {} {}",
@@ -618,7 +619,8 @@ fn exec(sc: &mut Option<Scene>, l: &str, out: &mut Out) {
 		},
 		"listener" => {
 			let pos = mint::Vector3 { x: p32(tok[1]), y: p32(tok[2]), z: p32(tok[3]) };
-			let q = glam::Quat::from_xyzw(p32(tok[4]), p32(tok[5]), p32(tok[6]), p32(tok[7])).normalize();
+			// any finite quaternion (not normalised; may be zero)
+			let q = glam::Quat::from_xyzw(p32(tok[4]), p32(tok[5]), p32(tok[6]), p32(tok[7]));
 			match s.mgr.add_listener(pos, mint::Quaternion::from(q)) {
 				Ok(h) => {
 					s.listeners.push(h);
